@@ -95,10 +95,27 @@ type caseSpec struct {
 	BatchSize  int    `json:"agent_batch_size"`
 	MaxEntries int    `json:"hub_max_reconcile_entries"`
 	Steps      []step `json:"steps"`
+
+	// family H: the real Agent with MaxConcurrent = Concurrent (2-4); the adapter forces
+	// the transfers of one wave to overlap (see concurrent.go). Layout "same-base" names
+	// every spoke file data.parquet (in different directories). ReverseRelease flips the
+	// order in which the parked transfers of a wave are started and released.
+	Concurrent     int    `json:"agent_max_concurrent,omitempty"`
+	Layout         string `json:"file_layout,omitempty"`
+	ReverseRelease bool   `json:"reverse_release,omitempty"`
+
+	// family G: overlapping Receive calls driven directly (see overlap.go)
+	Overlap *overlapSpec `json:"overlap,omitempty"`
 }
 
 func (s *caseSpec) key() string {
+	if s.Overlap != nil {
+		return s.Overlap.key()
+	}
 	var b strings.Builder
+	if s.Concurrent > 1 {
+		fmt.Fprintf(&b, "conc=%d layout=%s rev=%v ", s.Concurrent, s.Layout, s.ReverseRelease)
+	}
 	fmt.Fprintf(&b, "sizes=%v bs=%d me=%d", s.Sizes, s.BatchSize, s.MaxEntries)
 	for _, st := range s.Steps {
 		if st.Op == "run" {
@@ -283,6 +300,16 @@ func buildCases(rng *rand.Rand, quick bool) []*caseSpec {
 		}
 	}
 
+	// G: overlapping uploads against the hub objects directly (exhaustive, seed-independent)
+	for _, g := range overlapCases() {
+		add(g)
+	}
+
+	// H: the real Agent with 2-4 concurrent transfers whose overlap the adapter forces
+	for _, h := range concurrentCases() {
+		add(h)
+	}
+
 	// D: random histories: 2-6 files of assorted sizes, 2-6 runs with 0-2 faults each,
 	// random events between runs, paging (agent batch size) and hub reconcile cap varied.
 	nD := 1600
@@ -345,6 +372,31 @@ func sample[T any](rng *rand.Rand, in []T, n int) []T {
 	out := make([]T, 0, n)
 	for _, i := range idx {
 		out = append(out, in[i])
+	}
+	return out
+}
+
+// concurrentCases is the (seed-independent) list of family H.
+func concurrentCases() []*caseSpec {
+	var out []*caseSpec
+	sizeSets := [][]int{{300, 5000}, {5000, 300, 40000}, {300, 300, 300, 300}, {40000, 5000, 300, 17, 5000}, {5000, 5000, 5000, 5000, 5000, 5000}}
+	for _, layout := range []string{"same-base", ""} {
+		for conc := 2; conc <= 4; conc++ {
+			for _, sizes := range sizeSets {
+				for _, rev := range []bool{false, true} {
+					for _, bs := range []int{0, 3} {
+						if bs != 0 && len(sizes) <= bs {
+							continue
+						}
+						// a second run with a new file and a clean restart: the later passes
+						// overlap too (re-sends after a failed overlapped transfer)
+						out = append(out, &caseSpec{Family: "H-agent-concurrent", Seed: 27, Sizes: sizes,
+							Concurrent: conc, Layout: layout, ReverseRelease: rev, BatchSize: bs,
+							Steps: []step{runStep(), {Op: "event", Event: "spoke-new"}, {Op: "run", Restart: true}}})
+					}
+				}
+			}
+		}
 	}
 	return out
 }
